@@ -564,10 +564,12 @@ def handle : Handler := fun op inp impl =>
       let r0 := render e name a v
       let toHdr := timeoutHeaderOf (protoOf (a.protocol.num : Nat))
       let timeout := field inp "timeout"
-      let r : Req := { r0 with
+      let r1 : Req := { r0 with
         headers := (if name == "" then r0.headers.drop 1 else r0.headers) ++
           (if isNull timeout then [] else [(toHdr, asciiString (unhex (str timeout)))])
         trailers := nat (field inp "trailers") }
+      let pad := field inp "pad"
+      let r : Req := if isNull pad then r1 else padReq r1 (str (field pad "kind")) (nat (field pad "n"))
       let reqs := List.replicate times r
       let outs := serveChain path [] reqs
       let obs := (arr impl).map realObsOf
@@ -582,16 +584,20 @@ def handle : Handler := fun op inp impl =>
       if obs.any (fun i => i.proto != a.version.num) then
         bad s!"real: the exchange did not use HTTP/{a.version.num}" else
       let (g, gwhy) := serveHolds batch [] reqs (obs.map obsOfReal)
-      let exact := obs.all fun i => flagsExactly e a ((i.fb.map fbOfClass).filter (fun f => !notAnAspect f))
+      -- (an expectation header made malformed on purpose is no expectation: judged by agree and by
+      -- the general statements only)
+      let exact := (!isNull pad && str (field pad "kind") == "expect") ||
+        obs.all fun i => flagsExactly e a ((i.fb.map fbOfClass).filter (fun f => !notAnAspect f))
       let dev := mismatches e a
       { agree := agree, holds := g && exact, nontrivial := true, model := model,
         why := if !g then s!"{proc} over HTTP/{a.version.num}: " ++ gwhy else if !exact then
           s!"{proc} over HTTP/{a.version.num}: feedback {obs.map (·.fb)} does not name exactly the deviating aspects {reprStr dev}" else "",
-        cls := s!"{proc}/http{a.version.num}/" ++ (if name == "" then "no-name" else if !name.startsWith "Real/" then "odd-name" else if !isNull timeout then "timeout"
+        cls := s!"{proc}/http{a.version.num}/" ++ (if name == "" then "no-name" else if !isNull pad then "long-feedback" else if !name.startsWith "Real/" then "odd-name" else if !isNull timeout then "timeout"
           else if times > 1 then "repeat" else if nat (field inp "trailers") > 0 then "trailers"
           else if dev.isEmpty then "match" else "deviating") }
     | _, _ => bad "real: bad tuples"
   | "overlap" => handleOverlap inp impl
+  | "realoverlap" => handleOverlap inp impl
   | "stream" => handleStream inp impl
   | "render" =>
     match aspects (field inp "e"), aspects (field inp "a") with
